@@ -158,12 +158,12 @@ PROPS['C10'] = dict(
 )
 
 PROPS['C17'] = dict(
-    rules=[_r('LK1', rg.g3, SYNC, strict=True), _r('LK2', rg.g2, SYNC, rule='LK2'), _r('LK3', rg.lk3, SYNC), _r('LK4', rg.lk4, SYNC), _r('LK5', rg.lk5, SYNC), _r('LK6', rg.lk6, SYNC), _r('LK7', rg.lk7, SYNC), _r('LK-TRY', rg.lk_try, SYNC), _r('IT2', rg.it2, SYNC), _r('IT1', rg.it1, SYNC), _r('IT3', rg.it3, SYNC),
+    rules=[_r('LK1', rg.g3, SYNC, strict=True), _r('LK2', rg.g2, SYNC, rule='LK2'), _r('LK3', rg.lk3, SYNC), _r('LK4', rg.lk4, SYNC), _r('LK5', rg.lk5, SYNC), _r('LK6', rg.lk6, SYNC), _r('LK7', rg.lk7, SYNC), _r('LK8', rg.lk8, SYNC), _r('LK-TRY', rg.lk_try, SYNC), _r('IT2', rg.it2, SYNC), _r('IT1', rg.it1, SYNC), _r('IT3', rg.it3, SYNC),
            _r('P2', re_.p2_disconnect_directed, ('sync_digraph',)), _r('P2u', re_.p2_disconnect_undirected, ('sync_ungraph',)), _r('P1', re_.p1_connect, SYNC), _r('P3', re_.p3_isolate, SYNC)],
     explanation='Only the lock-discipline clauses are decidable statically: no node lock is acquired while another node-lock guard is held, directly or through any callee (LK1: with '
                 'per-node locks and no lock order this is necessary against ABBA and re-entrant read-behind-writer deadlocks, and with LK2 sufficient for deadlock freedom among gdsl\'s '
                 'own locks); no user callback or iterator step runs under a lock (LK2); no panic-capable call under a write guard (LK3: poisoning); every public mutator is one critical '
-                'section, otherwise it is reported with the multiset of its sections (LK4: a necessary condition of serialisability). Iterators lock once per step (IT1/IT2). No index computed under one acquisition is used under another (LK5); no owned copy of a weak peer handle leaves the adjacency module, so every upgrade() happens under the guard its entry was read under (LK6); a lookup decides whether an operation mutates, never which of two mutations it performs (LK7: check-then-act across critical sections); no try_read/try_write/try_lock whose failure becomes a data outcome (LK-TRY). The cursor of a node iterator may exceed the list another thread shortened between two steps, so an overridden provided method may not compute with it unguarded (IT3). The effect structure of each mutator (P1/P2/P2u/P3: the half at the peer is touched only on the success outcome of the half at the caller) is what stops the loser of a race from removing the winner\'s mirror entry; sequentially the re-validation is redundant, concurrently it is not.',
+                'section, otherwise it is reported with the multiset of its sections (LK4: a necessary condition of serialisability). Iterators lock once per step (IT1/IT2). No index computed under one acquisition is used under another (LK5); no owned copy of a weak peer handle leaves the adjacency module, so every upgrade() happens under the guard its entry was read under (LK6); a lookup decides whether an operation mutates, never which of two mutations it performs (LK7: check-then-act across critical sections); no try_read/try_write/try_lock whose failure becomes a data outcome (LK-TRY). The cursor of a node iterator may exceed the list another thread shortened between two steps, so an overridden provided method may not compute with it unguarded (IT3). The effect structure of each mutator (P1/P2/P2u/P3: the half at the peer is touched only on the success outcome of the half at the caller) is what stops the loser of a race from removing the winner\'s mirror entry; sequentially the re-validation is redundant, concurrently it is not. Termination: no loop repeats an operation under a node lock until it succeeds (LK8: a retry loop waits for another thread and has no bound of its own).',
     decides='hold-and-wait freedom, callback-under-lock freedom, poisoning sites, number and owners of critical sections per operation',
     does_not_decide='the serialisation order of schedules (linearizability), starvation, std RwLock itself; LK4 reports non-atomic operations but cannot prove atomic ones serialisable',
     assumptions=STD + ['payload trait impls do not take gdsl locks'],
@@ -192,7 +192,7 @@ PROPS['C19'] = dict(
     explanation='A container is a handle holder too: a member leaves it only through remove(), and insert() never replaces one (MAP) -- otherwise a node is released while the program still holds the container it put it in. Type-level ownership graph: the adjacency lists own only weak peer references (OWN1: structured type walk; the only strong edge is Node -> allocation), every type a '
                 'public signature hands out (Edge, Path, Graph, iterator items, lookups) holds strong Node handles and no public signature mentions a weak one (OWN2), no '
                 'forget/ManuallyDrop/leak/raw-pointer escape hatch and no unsafe code (OWN3, zero-count scan with a positive-control fixture compiled on every run), connect stores '
-                'downgrade(node), iterators and lookups return upgrade(..) of the stored peer, and a Node is only ever built by new/clone/upgrade (OWN4, ENC-d, IT2). In safe Rust a value '
+                'downgrade(node), iterators and lookups return upgrade(..) of the stored peer, and a Node is only ever built by new/clone/upgrade (OWN4, ENC-d, IT2); the node allocation itself owns no strong handle beside the lists (OWN1). In safe Rust a value '
                 'is dropped exactly once and never while owned, so leaks need a strong cycle or an escape hatch: both are excluded for library types whatever the graph shape.',
     decides='absence of strong reference cycles among library types and of leak/raw escape hatches; strength of every handle handed out',
     does_not_decide='cycles a user builds through the payload types N/E; Rc/Arc/Weak themselves',
@@ -272,7 +272,7 @@ PROPS['C15'] = dict(
                 '(crate-local calls, collection operations, enum-variant and ADT aggregates, returned constants, arithmetic, each tagged with loop depth and the chain of branch '
                 'predicates with polarity) after the renaming Rc<->Arc, RefCell<->RwLock, flavour prefix; guard acquisition, unwrap-as-assert, `?` plumbing, clones and formatting are not '
                 'events (SIB); equal error sets and adjacency-list footprints of the node API (SIB-SEM); common trait impls have the same bounds (SIB-IMPL); every body references only its '
-                'own flavour (FLAV) and corresponding macro arms expand alike (MAC-sib). Every structural rule of the other properties also runs on the sync copies themselves.',
+                'own flavour and never observes the identity (type_name / TypeId) of a flavour type (FLAV) and corresponding macro arms expand alike (MAC-sib). Every structural rule of the other properties also runs on the sync copies themselves.',
     decides='that the two copies are the same program up to the pointer/cell substitution and reordering inside one control region',
     does_not_decide='equivalence of arbitrary programs: a behaviour-preserving rewrite of only one copy that changes its event bag raises an alarm (the stated price of cross-checking '
                     'siblings); one-sided API (listed in the evidence) is not judged',
